@@ -44,6 +44,7 @@ pub fn engine(name: &str) -> Option<Box<dyn Erased>> {
         "codec-write" => Box::new(WriteEngine),
         "codec-read" => Box::new(ReadEngine),
         "raw-catalogue-server" => Box::new(CatalogueServerEngine),
+        "raw-catalogue-client" => Box::new(crate::eng_raw::CatalogueClientEngine),
         "raw-acks-server" => Box::new(AcksEngine),
         "raw-flow-server" => Box::new(FlowEngine),
         "raw-capacity-server" => Box::new(CapEngine),
